@@ -233,6 +233,45 @@ func enumerateEdits(b []byte, mode bitMode, restrict idxAlphabet) []edit {
 					it[0], it[1], it[2], it[3] = it[2], it[3], it[0], it[1]
 				}))
 			}
+			// parallel arrays (a proof made of rho repetitions keeps one array per component): the SAME edit on every
+			// sibling array of one length keeps them consistent with each other while the number of components changes
+			byLen := map[int][]int{}
+			var lens []int
+			for e := 1; e < len(n.Items); e += 2 {
+				if v := n.Items[e]; v.Kind == cbor.Array && len(v.Items) > 0 {
+					if byLen[len(v.Items)] == nil {
+						lens = append(lens, len(v.Items))
+					}
+					byLen[len(v.Items)] = append(byLen[len(v.Items)], e)
+				}
+			}
+			for _, ln := range lens {
+				grp := byLen[ln]
+				if len(grp) < 2 {
+					continue
+				}
+				each := func(f func(a *cbor.Node)) func(w *walker) []byte {
+					return onClone(i, func(_ *cbor.Node, c cbor.Ref) {
+						for _, e := range grp {
+							f(c.Node.Items[e])
+						}
+					})
+				}
+				add("extend", fmt.Sprintf("%s all %d sibling arrays of length %d: last element repeated at the end", r.Path, len(grp), ln), each(func(a *cbor.Node) {
+					a.Items = append(a.Items, a.Items[len(a.Items)-1].Clone())
+				}))
+				add("extend", fmt.Sprintf("%s all %d sibling arrays of length %d: first element repeated at the front", r.Path, len(grp), ln), each(func(a *cbor.Node) {
+					a.Items = append([]*cbor.Node{a.Items[0].Clone()}, a.Items...)
+				}))
+				add("drop", fmt.Sprintf("%s all %d sibling arrays of length %d: last element dropped", r.Path, len(grp), ln), each(func(a *cbor.Node) {
+					a.Items = a.Items[:len(a.Items)-1]
+				}))
+				if ln > 1 {
+					add("swap", fmt.Sprintf("%s all %d sibling arrays of length %d: first two elements swapped", r.Path, len(grp), ln), each(func(a *cbor.Node) {
+						a.Items[0], a.Items[1] = a.Items[1], a.Items[0]
+					}))
+				}
+			}
 			add("extend", r.Path+" extra entry \"zz\":null appended", onClone(i, func(_ *cbor.Node, c cbor.Ref) {
 				c.Node.Items = append(c.Node.Items, &cbor.Node{Kind: cbor.Text, Data: []byte("zz")}, &cbor.Node{Kind: cbor.Simple, Info: 22, Arg: 22})
 			}))
